@@ -23,6 +23,8 @@ func main() {
 	funcs := flag.Bool("funcs", false, "rename unexported package-level functions instead")
 	fields := flag.Bool("fields", false, "with -funcs: unexported struct fields instead")
 	typesF := flag.Bool("types", false, "with -funcs: unexported named types instead")
+	invert := flag.Bool("invert", false, "instead of renaming: turn every if/else round (if !(c) {B} else {A})")
+	commute := flag.Bool("commute", false, "instead of renaming: x == nil -> nil == x, n != 0 -> 0 != n")
 	methods := flag.Bool("methods", false, "with -funcs: unexported methods instead of functions")
 	flag.Parse()
 	cfg := &packages.Config{Mode: packages.LoadSyntax, Dir: *dir}
@@ -53,6 +55,67 @@ func main() {
 				})
 			}
 		}
+	}
+	if *invert || *commute {
+		cnt := 0
+		for _, p := range pkgs {
+			if len(p.Errors) > 0 {
+				fmt.Fprintln(os.Stderr, p.Errors)
+				os.Exit(2)
+			}
+			if strings.Contains(p.PkgPath, "/proto") || strings.Contains(p.PkgPath, "example") || strings.Contains(p.PkgPath, "/cmd/") {
+				continue
+			}
+			for i, f := range p.Syntax {
+				name := p.CompiledGoFiles[i]
+				if strings.HasSuffix(name, "_test.go") || strings.HasSuffix(name, ".pb.go") || !strings.HasPrefix(name, *dir) {
+					continue
+				}
+				changed := false
+				ast.Inspect(f, func(nd ast.Node) bool {
+					switch x := nd.(type) {
+					case *ast.IfStmt:
+						if !*invert {
+							return true
+						}
+						if els, ok := x.Else.(*ast.BlockStmt); ok {
+							x.Cond = &ast.UnaryExpr{Op: token.NOT, X: &ast.ParenExpr{X: x.Cond}}
+							x.Body, x.Else = els, x.Body
+							changed = true
+							cnt++
+						}
+					case *ast.BinaryExpr:
+						if !*commute || (x.Op != token.EQL && x.Op != token.NEQ) {
+							return true
+						}
+						simple := false
+						switch y := x.Y.(type) {
+						case *ast.Ident:
+							simple = y.Name == "nil"
+						case *ast.BasicLit:
+							simple = true
+						}
+						if simple {
+							x.X, x.Y = x.Y, x.X
+							changed = true
+							cnt++
+						}
+					}
+					return true
+				})
+				if changed {
+					var sb strings.Builder
+					if err := format.Node(&sb, p.Fset, f); err != nil {
+						panic(err)
+					}
+					if err := os.WriteFile(name, []byte(sb.String()), 0o644); err != nil {
+						panic(err)
+					}
+				}
+			}
+		}
+		fmt.Println("rewritten:", cnt)
+		return
 	}
 	n := 0
 	for _, p := range pkgs {
